@@ -163,13 +163,18 @@ type lpApplyResult struct {
 
 // lpApply feeds one frame to l (threads already installed) with panic recovery, allocation
 // accounting and the state clause.
-func lpApply(l *fwface.NDNLPLinkService, frame []byte) (r lpApplyResult) {
-	before, _ := fwface.VerifC04Dump(l)
+func lpApply(l *fwface.NDNLPLinkService, frame []byte, measure bool, before string) (r lpApplyResult) {
+	if before == "" {
+		before, _ = fwface.VerifC04Dump(l)
+	}
 	for _, t := range recThreads {
 		t.interests, t.datas = t.interests[:0], t.datas[:0]
 	}
 	in := append([]byte{}, frame...)
-	a0 := totalAlloc()
+	var a0 uint64
+	if measure {
+		a0 = totalAlloc()
+	}
 	func() {
 		defer func() {
 			if rec := recover(); rec != nil {
@@ -178,17 +183,19 @@ func lpApply(l *fwface.NDNLPLinkService, frame []byte) (r lpApplyResult) {
 		}()
 		fwface.VerifC04Handle(l, in)
 	}()
-	runtime.ReadMemStats(&ms1)
-	r.alloc = ms1.TotalAlloc - a0
-	if r.alloc > 64<<20 {
-		defer func() { runtime.GC(); debug.FreeOSMemory() }()
+	if measure {
+		runtime.ReadMemStats(&ms1)
+		r.alloc = ms1.TotalAlloc - a0
+		if r.alloc > 16<<20 {
+			defer func() { runtime.GC(); debug.FreeOSMemory() }()
+		}
 	}
 	if r.v != nil {
 		return
 	}
 	r.state, _ = fwface.VerifC04Dump(l)
 	r.q = queued()
-	if r.alloc > uint64(memPerByte*len(frame))+memConst+1024 {
+	if measure && r.alloc > uint64(memPerByte*len(frame))+memConst+1024 {
 		r.v = &violation{Clause: "C04.mem", Key: "unbounded allocation (site pending)", NeedAt: true, Alloc: r.alloc,
 			Detail: fmt.Sprintf("handling one %d-byte frame allocated %d bytes", len(frame), r.alloc)}
 		return
@@ -222,6 +229,8 @@ func lpCaseViol(a *acc, v *violation, cfg int, frames []int64, descr string, fra
 	v.Entry = fmt.Sprintf("face.NDNLPLinkService.handleIncomingFrame/seq n=%d local=%v", lpConfigs[cfg].n, lpConfigs[cfg].local)
 	v.EntryI = -1 - cfg
 	v.Family = -1
+	v.Hist = append([]int64{}, frames...)
+	v.Cfg = cfg
 	v.Index = frames[len(frames)-1]
 	v.Case = descr
 	v.Input = inputHex(frame)
@@ -252,7 +261,7 @@ func runLp1(t task, a *acc) {
 		l := fwface.VerifC04NewLinkService(7, cfg.local, 8800)
 		frame := lpEncode(cfg.n, lpDecode(i))
 		mark(t.ID, i, -1-t.N)
-		r := lpApply(l, frame)
+		r := lpApply(l, frame, true, "")
 		a.res.Evals++
 		a.res.Cases++
 		if r.alloc > a.res.MaxAlloc {
@@ -288,68 +297,191 @@ func lsPristineDump() string {
 	return pristineDump
 }
 
+// lpFrames caches the encoded frames of the sequence alphabet per thread count.
+var lpFrameCache = map[int][][]byte{}
+
+func lpFrameOf(n int, k int64) []byte {
+	c := lpFrameCache[n]
+	if c == nil {
+		c = make([][]byte, len(lpAlphabet))
+		lpFrameCache[n] = c
+	}
+	if c[k] == nil {
+		c[k] = lpEncode(n, lpDecode(lpAlphabet[k]))
+	}
+	return c[k]
+}
+
+// lpFresh builds a link service and replays a frame history on it (no checks).
+func lpFresh(cfg int, pre []int) (l *fwface.NDNLPLinkService, ok bool) {
+	c := lpConfigs[cfg]
+	setThreads(c.n)
+	l = fwface.VerifC04NewLinkService(7, c.local, 8800)
+	ok = true
+	for _, pf := range pre {
+		func() {
+			defer func() {
+				if recover() != nil {
+					ok = false
+				}
+			}()
+			fwface.VerifC04Handle(l, lpEncode(c.n, lpDecode(int64(pf))))
+		}()
+	}
+	return
+}
+
 // runLpSeq: for every prefix (a frame history) and every frame lpAlphabet[Lo:Hi], replay the
-// prefix on a fresh link service and apply the frame with all checks. Returns the canonical
-// states reached by non-violating transitions.
+// prefix on a fresh link service and apply the frame with all checks. Allocation is measured over
+// windows of transitions (the cost of building the instance and replaying the prefix is measured
+// once per prefix and subtracted); a window over the threshold is re-run transition by
+// transition with the handler alone inside the measurement. Returns the canonical states reached
+// by non-violating transitions.
 func runLpSeq(t task, a *acc) {
 	cfg := lpConfigs[t.N]
 	seen := map[string]bool{}
 	skip := skipSet(t)
+	const K = 16
+	pend0 := make([]lpState, 0, K)
 	for pi, pre := range t.Prefix {
-		for k := t.Lo; k < t.Hi; k++ {
-			if skip != nil && skip[[2]int64{int64(pi)*int64(len(lpAlphabet)) + k, int64(-1 - t.N)}] {
-				continue
-			}
-			f := lpAlphabet[k]
-			setThreads(cfg.n)
-			l := fwface.VerifC04NewLinkService(7, cfg.local, 8800)
-			ok := true
-			for _, pf := range pre {
-				func() {
-					defer func() {
-						if recover() != nil {
-							ok = false
-						}
-					}()
-					fwface.VerifC04Handle(l, lpEncode(cfg.n, lpDecode(int64(pf))))
-				}()
+		// input-independent cost of one transition: fresh instance + replay of the prefix
+		fixed := ^uint64(0)
+		before := ""
+		okPre := true
+		for rep := 0; rep < 2; rep++ {
+			a0 := totalAlloc()
+			l, ok := lpFresh(t.N, pre)
+			runtime.ReadMemStats(&ms1)
+			if d := ms1.TotalAlloc - a0; d < fixed {
+				fixed = d
 			}
 			if !ok {
-				resetAfterPanic()
-				continue
+				okPre = false
+				break
 			}
-			frame := lpEncode(cfg.n, lpDecode(f))
-			mark(t.ID, int64(pi)*int64(len(lpAlphabet))+k, -1-t.N)
-			r := lpApply(l, frame)
-			a.res.Evals++
-			if r.alloc > a.res.MaxAlloc {
-				a.res.MaxAlloc = r.alloc
+			before, _ = fwface.VerifC04Dump(l)
+		}
+		if !okPre {
+			resetAfterPanic()
+			continue
+		}
+		hist := func(f int64) []int64 {
+			h := make([]int64, 0, len(pre)+1)
+			for _, pf := range pre {
+				h = append(h, int64(pf))
 			}
-			if r.v != nil {
-				hist := make([]int64, 0, len(pre)+1)
-				for _, pf := range pre {
-					hist = append(hist, int64(pf))
-				}
-				hist = append(hist, f)
-				lpCaseViol(a, r.v, t.N, hist, lpDescribe(cfg.n, hist), frame)
-				if r.v.Clause == "C04.panic" {
-					resetAfterPanic()
-				}
-				a.res.Sigs["lpseq:violation"]++
-				continue
+			return append(h, f)
+		}
+		for lo := t.Lo; lo < t.Hi; lo += K {
+			hi := lo + K
+			if hi > t.Hi {
+				hi = t.Hi
 			}
-			a.res.Sigs["lpseq:ok"]++
-			h := sha256.Sum256([]byte(r.state))
-			hs := hex.EncodeToString(h[:10])
-			if !seen[hs] {
-				seen[hs] = true
-				st := lpState{P: pi, F: f, H: hs}
-				if len(a.res.States) < 3 {
-					st.Dump = r.state
+			for k := lo; k < hi; k++ {
+				lpFrameOf(cfg.n, k) // encode outside the measured window
+			}
+			cnt := uint64(0)
+			pend := pend0[:0]
+			memBad := map[int64]bool{}
+			a0 := totalAlloc()
+			for k := lo; k < hi; k++ {
+				idx := int64(pi)*int64(len(lpAlphabet)) + k
+				if skip != nil && skip[[2]int64{idx, int64(-1 - t.N)}] {
+					continue
 				}
-				a.res.States = append(a.res.States, st)
+				f := lpAlphabet[k]
+				frame := lpFrameOf(cfg.n, k)
+				l, _ := lpFresh(t.N, pre)
+				mark(t.ID, idx, -1-t.N)
+				r := lpApply(l, frame, false, before)
+				cnt++
+				a.res.Evals++
+				if r.v != nil {
+					h := hist(f)
+					lpCaseViol(a, r.v, t.N, h, lpDescribe(cfg.n, h), frame)
+					if r.v.Clause == "C04.panic" {
+						resetAfterPanic()
+					}
+					a.kinds[len(sigNames)]++
+					continue
+				}
+				a.kinds[sigOK]++
+				hsum := sha256.Sum256([]byte(r.state))
+				hs := hex.EncodeToString(hsum[:10])
+				if !seen[hs] {
+					st := lpState{P: pi, F: f, H: hs}
+					if len(a.res.States) < 2 {
+						st.Dump = r.state
+					}
+					pend = append(pend, st)
+				}
+			}
+			runtime.ReadMemStats(&ms1)
+			delta := ms1.TotalAlloc - a0
+			if delta > 16<<20 {
+				runtime.GC()
+				debug.FreeOSMemory()
+			}
+			if delta > uint64(memConst)+cnt*fixed {
+				a.trips++
+				for k := lo; k < hi; k++ {
+					idx := int64(pi)*int64(len(lpAlphabet)) + k
+					if skip != nil && skip[[2]int64{idx, int64(-1 - t.N)}] {
+						continue
+					}
+					frame := lpFrameOf(cfg.n, k)
+					l, _ := lpFresh(t.N, pre)
+					mark(t.ID, idx, -1-t.N)
+					a.precise++
+					r := lpApply(l, frame, true, before)
+					if r.alloc > a.res.MaxAlloc {
+						a.res.MaxAlloc = r.alloc
+					}
+					if r.v != nil && r.v.Clause == "C04.mem" {
+						h := hist(lpAlphabet[k])
+						lpCaseViol(a, r.v, t.N, h, lpDescribe(cfg.n, h), frame)
+						memBad[lpAlphabet[k]] = true
+					}
+					if r.v != nil && r.v.Clause == "C04.panic" {
+						resetAfterPanic()
+					}
+				}
+			}
+			// states reached by a violating transition are not expanded
+			for _, st := range pend {
+				if !memBad[st.F] && !seen[st.H] {
+					seen[st.H] = true
+					a.res.States = append(a.res.States, st)
+				}
 			}
 		}
 	}
 	a.res.Cases += int64(len(t.Prefix)) * (t.Hi - t.Lo)
+}
+
+// runLpHist replays one frame history (replay files): all frames but the last without checks,
+// the last one with every check.
+func runLpHist(t task, a *acc) {
+	cfg := lpConfigs[t.N]
+	if len(t.Hist) == 0 {
+		return
+	}
+	pre := make([]int, 0, len(t.Hist))
+	for _, f := range t.Hist[:len(t.Hist)-1] {
+		pre = append(pre, int(f))
+	}
+	l, ok := lpFresh(t.N, pre)
+	if !ok {
+		a.res.Extra = map[string]any{"prefix_panics": true}
+		return
+	}
+	last := t.Hist[len(t.Hist)-1]
+	frame := lpEncode(cfg.n, lpDecode(last))
+	mark(t.ID, last, -1-t.N)
+	r := lpApply(l, frame, true, "")
+	a.res.Evals++
+	if r.v != nil {
+		lpCaseViol(a, r.v, t.N, t.Hist, lpDescribe(cfg.n, t.Hist), frame)
+	}
+	a.res.Samples = append(a.res.Samples, fmt.Sprintf("%s -> queued=%d state=%q alloc=%d", lpDescribe(cfg.n, t.Hist), r.q, r.state, r.alloc))
 }
